@@ -105,7 +105,7 @@ type VerifRootInfo struct {
 	Chained      uintptr // chainedRootNodeLoc
 	ReclaimLater [3]uintptr
 	RootEmpty    bool
-	Lock         uintptr // the rootLock shared by all handles of one lineage
+	Lock         uintptr   // the rootLock shared by all handles of one lineage
 	ChainMarks   []uintptr // reclaimMark sentinels of the versions this one chains to
 }
 
